@@ -1321,12 +1321,12 @@ def main(tier):
     if have_model:
         lines, where = [], []
         for ci, r in enumerate(dir_results):
-            for (si, fn, ln) in D.ident_lines(r, cap=40 if quick else 120):
+            for (si, fn, ln) in D.entry_lines(dcases[ci], r, cap=40 if quick else 120):
                 lines.append(ln)
                 where.append((ci, si, fn))
         rcm, mo, me = run_lines(model, lines) if lines else (0, [], "")
         if rcm != 0 or len(mo) != len(lines):
-            run.violation("model:driver", {"what": "model driver failed (c12_ident)", "stderr": me}, no_input=True)
+            run.violation("model:driver", {"what": "model driver failed (c12_entry)", "stderr": me}, no_input=True)
         else:
             for (ci, si, fn), out in zip(where, mo):
                 dir_model.setdefault(ci, {})[(si, fn)] = out
